@@ -8,7 +8,7 @@ namespace Cobweb.Sc
 def toks (line : String) : List String := (line.trimAscii.toString.splitOn " ").filter (· ≠ "")
 
 def parseKind : String → Option SKind
-  | "f" => some .f | "n" => some .n | "s" => some .s | _ => none
+  | "f" => some .f | "n" => some .n | "s" => some .s | "o" => some .o | _ => none
 
 def parseCall : List String → Option SCall
   | [k, key, x] => do pure { kind := ← parseKind k, key := ← key.toNat?, input := ← x.toNat? }
@@ -84,7 +84,7 @@ def SScenario.prog (sc : SScenario) : SProg where
     | some d => d.excl
     | none => false
 
-def showKind : SKind → String | .f => "f" | .n => "n" | .s => "s"
+def showKind : SKind → String | .f => "f" | .n => "n" | .s => "s" | .o => "o"
 
 def showEv : SEv → String
   | .enter k key run x => s!"sc enter {showKind k}{key} r{run} x{x}"
